@@ -294,6 +294,8 @@ def run(run: Run):
     # the challenges themselves: Gallina STROBE-128 / Merlin (Crypto/Strobe.v) replayed on the recorded operation logs, every challenge and RNG output byte for byte
     from lib import merlinrep
     merlinrep.replay_sessions(run, "c04", specs, sobs, 10 if run.tier == "quick" else 80)
+    # ... and the model's own operation lists run through the Gallina Merlin (Model/MerlinOps.run_ops): same challenge bytes
+    merlinrep.abstract_sessions(run, "c04", specs, sobs, 12 if run.tier == "quick" else 100)
     return run.finish(
         "proof",
         "for each configuration one accepted proof and one run per single-datum perturbation (context label / message / extra message, H, every Gb_k, bit "
